@@ -7,6 +7,7 @@ sweep against CPython 3.11 (+ generator ground truth for PEP 695), judged by `or
 """
 import os
 import re
+import tokenize
 import sys
 import unicodedata
 
@@ -346,8 +347,18 @@ def _g(ctx, name, **kw):
 
 
 def _top_comma(t):
+    """a comma outside every bracket (brackets inside string literals do not count: token-wise)"""
     depth = 0
-    for c in t:
+    try:
+        toks = list(gen_program._tokens(t))
+    except Exception:       # noqa
+        toks = None
+    if toks is None:
+        return "," in t
+    for tok in toks:
+        if tok.type != tokenize.OP:
+            continue
+        c = tok.string
         if c in "([{":
             depth += 1
         elif c in ")]}":
